@@ -5,10 +5,12 @@ CONSTANTS
   MaxMods = 0
   FixShort = TRUE
   FixMid = TRUE
-  Tasks = {"db"}
+  Tasks = {"db", "stage"}
   DbInputs <- MCDbInputs
+  StageInputs <- MCStageInputs
 INVARIANT StepBound
 INVARIANT DbTotalAndExact
+INVARIANT StagedExact
 PROPERTY Terminates
 CONSTRAINT DumpConstraint
 CHECK_DEADLOCK FALSE
